@@ -4,12 +4,13 @@
 From Verif Require Import GoSem Timeline Fault.
 
 Inductive c14case :=
-(** a media-segment request with statuscode_ configured (L1, through the HTTP handler) *)
-| CStatus (id : Z) (r : rep) (loopMS : Z) (cfg : tcfg) (codes : list sscode) (repID : string)
+(** a media-segment request with statuscode_ configured (L1, through the HTTP handler);
+    [fx]: the implementation under test has the proposed repair of calcStatusCode (probed) *)
+| CStatus (id : Z) (fx : bool) (r : rep) (loopMS : Z) (cfg : tcfg) (codes : list sscode) (repID : string)
           (audio : option (Z * Z)) (mode : addressing) (segID now base : Z)
           (obs : Z) (opanic : string)
 (** calcStatusCode on a synthetic one-representation asset (L2, hook): obs = code, -1 = error *)
-| CCalc (id : Z) (r : rep) (loopMS : Z) (cfg : tcfg) (codes : list sscode) (repID : string)
+| CCalc (id : Z) (fx : bool) (r : rep) (loopMS : Z) (cfg : tcfg) (codes : list sscode) (repID : string)
         (mode : addressing) (segID now : Z) (obs : Z) (opanic : string)
 (** a media-segment request with traffic_ configured (L1): [pattern] is the value of the
     parameter, [basePlain]/[baseStripped] the answers without the parameter to the path as it is
@@ -25,8 +26,8 @@ Inductive c14case :=
 
 Definition c_id (c : c14case) : Z :=
   match c with
-  | CStatus id _ _ _ _ _ _ _ _ _ _ _ _ => id
-  | CCalc id _ _ _ _ _ _ _ _ _ _ => id
+  | CStatus id _ _ _ _ _ _ _ _ _ _ _ _ _ => id
+  | CCalc id _ _ _ _ _ _ _ _ _ _ _ => id
   | CTraffic id _ _ _ _ _ _ _ _ => id
   | CLoss id _ _ _ _ _ _ => id
   | CBase id _ _ _ => id
@@ -55,9 +56,9 @@ Definition lossView (pattern : list Z) (secs : list Z) : bool * list (Z * Z) * Z
   | _ => (true, [], 0, [])
   end.
 
-Definition calcView (r : rep) loopMS cfg codes repID mode segID now : Z * string :=
+Definition calcView (fx : bool) (r : rep) loopMS cfg codes repID mode segID now : Z * string :=
   match lookup r loopMS cfg mode segID now with
-  | TOk m => match calcStatusCode r loopMS cfg codes repID m with
+  | TOk m => match calcStatusCode fx r loopMS cfg codes repID m with
              | Ok code => (code, EmptyString)
              | Err _ => (-1, EmptyString)
              | Panic s => (0, s)
@@ -70,11 +71,11 @@ Definition pairZ_eqb (a b : Z * Z) : bool := (fst a =? fst b) && (snd a =? snd b
 
 Definition case_ok (c : c14case) : bool :=
   match c with
-  | CStatus _ r loopMS cfg codes repID audio mode segID now base obs opanic =>
-    let '(s, p) := ansView (segAnswer r loopMS cfg codes repID audio mode segID now base) in
+  | CStatus _ fx r loopMS cfg codes repID audio mode segID now base obs opanic =>
+    let '(s, p) := ansView (segAnswer fx r loopMS cfg codes repID audio mode segID now base) in
     (s =? obs) && String.eqb p opanic
-  | CCalc _ r loopMS cfg codes repID mode segID now obs opanic =>
-    let '(s, p) := calcView r loopMS cfg codes repID mode segID now in
+  | CCalc _ fx r loopMS cfg codes repID mode segID now obs opanic =>
+    let '(s, p) := calcView fx r loopMS cfg codes repID mode segID now in
     (s =? obs) && String.eqb p opanic
   | CTraffic _ pattern segPart now bp bs obs odelay opanic =>
     let '(s, d, p) := trafficView pattern segPart now bp bs in
@@ -101,10 +102,10 @@ Inductive mview :=
 
 Definition model_view (c : c14case) : mview :=
   match c with
-  | CStatus _ r loopMS cfg codes repID audio mode segID now base _ _ =>
-    let '(s, p) := ansView (segAnswer r loopMS cfg codes repID audio mode segID now base) in VAns s p
-  | CCalc _ r loopMS cfg codes repID mode segID now _ _ =>
-    let '(s, p) := calcView r loopMS cfg codes repID mode segID now in VAns s p
+  | CStatus _ fx r loopMS cfg codes repID audio mode segID now base _ _ =>
+    let '(s, p) := ansView (segAnswer fx r loopMS cfg codes repID audio mode segID now base) in VAns s p
+  | CCalc _ fx r loopMS cfg codes repID mode segID now _ _ =>
+    let '(s, p) := calcView fx r loopMS cfg codes repID mode segID now in VAns s p
   | CTraffic _ pattern segPart now bp bs _ _ _ =>
     let '(s, d, p) := trafficView pattern segPart now bp bs in VTraffic s d p
   | CLoss _ pattern _ _ _ secs _ => VLoss (lossView pattern secs)
